@@ -28,7 +28,7 @@ struct lookup
 config* g_cfg;
 lookup g_l[K];
 int g_nl = 0, g_ops = 0, g_ncomplete = 0;
-long g_prev_host_completion = 0;
+long g_prev_lo = 0, g_prev_hi = 0;   // bounds of the completion time of the last host-name lookup
 long g_gap[K];
 bool g_cancel_in_handler = false;
 asio::high_resolution_timer* g_driver;
@@ -112,21 +112,27 @@ void model_cancel(long now)
 {
 	for (int i = 0; i < g_nl; ++i)
 		if (g_l[i].state == 0) { g_l[i].state = 1; g_l[i].abort_time = now; }
-	g_prev_host_completion = now;
+	g_prev_lo = g_prev_hi = now;
 }
 
 void next_op(error_code const&);
 
 void do_op()
 {
+#ifdef SMALL
+	// reduced alphabet: one literal op (IPv4 for even, IPv6 for odd lookups)
+	int const op4 = vp_choose(4);
+	int const op = op4 == 0 ? 0 : (op4 == 1 ? 1 + (g_nl & 1) : op4 + 1);
+#else
 	int const op = vp_choose(5);
+#endif
 	long const now = now_ns();
 	vp_log(2, op, now, 0);
 	if (op <= 2)
 	{
 		int const id = g_nl++;
 		lookup& l = g_l[id];
-		int const sv = vp_choose(3);
+		int const sv = id == 0 ? vp_choose(3) : 0;
 		l.kind = op; l.req_time = now; l.port = service_port[sv]; l.state = 0; l.done = 0;
 		bool literal_pending = false;
 		for (int i = 0; i < id; ++i) if (g_l[i].state == 0 && g_l[i].kind != 0) literal_pending = true;
@@ -134,10 +140,13 @@ void do_op()
 		if (op == 0)
 		{
 			l.host = vp_choose(NHOST);
-			long const start = g_prev_host_completion > now ? g_prev_host_completion : now;
-			l.expect = start + g_cfg->hosts[std::size_t(l.host)].latency_ns;
-			l.slack = literal_pending ? 1000 : 0;
-			g_prev_host_completion = l.expect;
+			// max(time requested, completion of the previous host-name lookup) + latency; the previous
+			// completion is only known up to the microsecond a pending literal may cost
+			long const lat = g_cfg->hosts[std::size_t(l.host)].latency_ns;
+			long const lo = (g_prev_lo > now ? g_prev_lo : now) + lat;
+			long const hi = (g_prev_hi > now ? g_prev_hi : now) + lat + (literal_pending ? 1000 : 0);
+			l.expect = lo; l.slack = hi - lo;
+			g_prev_lo = lo; g_prev_hi = hi;
 			g_do_resolve(id, host_names[l.host], services[sv]);
 			// the configuration is consulted exactly once per host-name lookup
 			vp_assert(g_cfg->lookups == lookups_before + 1, 20);
@@ -147,7 +156,13 @@ void do_op()
 			l.host = -1;
 			l.expect = now; l.slack = 1000;
 			// a literal pending at the same time can delay a host-name lookup by at most one microsecond
-			for (int i = 0; i < id; ++i) if (g_l[i].state == 0 && g_l[i].kind == 0) g_l[i].slack = 1000;
+			for (int i = 0; i < id; ++i)
+				if (g_l[i].state == 0 && g_l[i].kind == 0)
+				{
+					// each literal served in front of it can cost a pending host-name lookup up to one microsecond
+					g_l[i].slack += 1000;
+					if (g_prev_hi < g_l[i].expect + g_l[i].slack) g_prev_hi = g_l[i].expect + g_l[i].slack;
+				}
 			g_do_resolve(id, op == 1 ? "10.0.7.9" : "ff::dead:beef", services[sv]);
 			// literals never consult the configuration
 			vp_assert(g_cfg->lookups == lookups_before, 21);
@@ -185,7 +200,7 @@ extern "C" int harness_main()
 	{
 		host_entry h;
 		h.name = host_names[i];
-		h.latency_ns = vp_choose(2) == 0 ? (i == 1 ? 0 : 1000) : vp_sym_long(1, 1000000000L);
+		h.latency_ns = i == 0 ? 1000 : (i == 1 ? (vp_choose(2) == 0 ? 0 : vp_sym_long(1, 1000000000L)) : vp_sym_long(1, 1000000000L));
 		h.err = i == 2 ? vp_choose(2) : 0;
 		if (i == 0) h.addrs = { address(address_v4(0x01020304)) };
 		if (i == 1) h.addrs = { address(address_v6::loopback()), address(address_v4(0x7f000001)) };
@@ -195,9 +210,12 @@ extern "C" int harness_main()
 	asio::io_context ios(s, address(address_v4(0x0a000001)));
 	asio::io_context tios(s);
 	asio::high_resolution_timer driver(tios); g_driver = &driver;
-	for (int i = 0; i < K; ++i) g_gap[i] = vp_choose(2) == 0 ? 0 : vp_sym_long(1, 300000000L);
+	for (int i = 0; i < K; ++i) g_gap[i] = (i == 0 || vp_choose(2) == 0) ? 0 : vp_sym_long(1, 300000000L);
 
-	int const proto = vp_choose(2);
+#ifndef PROTO
+#define PROTO 0
+#endif
+	int const proto = PROTO;
 	tcp::resolver* tr = nullptr; udp::resolver* ur = nullptr;
 	if (proto == 0)
 	{
